@@ -106,6 +106,7 @@ func (ld *Loaded) newExec() *Exec {
 }
 
 type FuncResult struct {
+	FalseAssumes int
 	Key    string
 	Obls   []*Obligation
 	Used   []string
@@ -152,6 +153,7 @@ func (ld *Loaded) verifyFunction(c *Contract) (res *FuncResult) {
 			res.Used = append(res.Used, k)
 		}
 		res.Paths += x.paths
+		res.FalseAssumes += x.falseAssumes
 		res.Mode = x.mode.String()
 		if res.Err != "" {
 			break
